@@ -121,8 +121,12 @@ def history(rng, inst, n):
                 w = "call ac %d set_mode %s %d" % (a, rng.choice(["AUTO", "HEAT", "DRY", "FAN", "COOL"]), rng.choice([0, 1]))
             elif k < 0.55:
                 w = "call ac %d set_fan_speed %s" % (a, rng.choice(["AUTO", "QUIET", "LOW", "MEDIUM", "HIGH", "POWERFUL", "TURBO", "INTELLIGENT_AUTO"]))
-            elif k < 0.7:
+            elif k < 0.63:
                 w = "call ac %d set_target_temperature %d" % (a, rng.randint(10, 36))
+            elif k < 0.7:
+                tt = rng.choice(["ON_TIMER", "OFF_TIMER"])
+                w = ("call ac %d clear_quick_timer %s" % (a, tt)) if rng.random() < 0.4 else (
+                    "call ac %d set_quick_timer %s time %d %d" % (a, tt, rng.randint(0, 23), rng.randint(0, 59)))
             elif k < 0.8 and zs:
                 w = "call zone %d set_power %s" % (rng.choice(zs), rng.choice(["OFF", "ON", "TURBO"]))
             elif k < 0.9 and zs:
@@ -273,6 +277,13 @@ def run(ctx, deep=False):
                     f5 = c04.frame_of(api5, s5[0][0])
                 except Exception:  # noqa: BLE001
                     ctx.count("call:unencodable")
+                    continue
+                if "quick_timer" in st[1]:
+                    a = int(st[1].split()[2])
+                    t4, t5 = c04.timer_record(4, a, f4[1]), c04.timer_record(5, a, f5[1])
+                    if t4 != t5:
+                        bad("C19:meaning:quick_timer", "equivalent consoles, `%s`: the AirTouch 4 frame sets (on, off) = %s, the AirTouch 5 frame %s" % (st[1], t4, t5),
+                            inst=inst, call=st[1], kind_="meaning")
                     continue
                 k4 = {0x2A: "2A", 0x2C: "2C"}.get(f4[3].message_id)
                 k5 = {0x20: "C020", 0x22: "C022"}.get(f5[1][0]) if f5[3].message_id == 0xC0 else None
